@@ -289,5 +289,129 @@ def units(tier):
     for k, dk in (((1, 3), (0, 0)) if not T else ((0, 0), (0, 2), (1, 1), (1, 3), (3, 4))):
         us.append(Unit("ray-two-triangles%d-dir%d" % (k, dk), u_ray_two_triangles, params={"tri": k, "dir": dk}, key="ray_two", functions=[F + "ray.ray_triangle.ray_triangle_id", "trimesh.grouping.group"], bounds="two parallel copies of catalogue triangle %d x catalogue direction %d x every origin whose ray crosses both interiors at margin" % (k, dk),
                        max_paths=300, wall_s=300, ob_ms=30000, feas_ms=800, group=False))
+    boxes = [((-3, -3, lib.Fr(1, 5)), (3, 3, lib.Fr(9, 5))), ((1, 1, lib.Fr(1, 5)), (6, 6, 4))] + ([((-6, -6, -3), (6, 6, lib.Fr(-1, 5)))] if T else [])
+    for bi, bx in enumerate(boxes):
+        us.append(Unit("nearby_faces-box%d" % bi, u_nearby_faces, params={"box": bx}, key="nearby_faces", functions=[F + "proximity.nearby_faces"],
+                       bounds="two-triangle catalogue mesh x EVERY query point of the box %s..%s; kd-tree and r-tree replaced by their contracts" % (tuple(map(str, bx[0])), tuple(map(str, bx[1]))),
+                       subspace="catalogue mesh x symbolic point", max_paths=200, wall_s=200, ob_ms=30000, feas_ms=800, group=False))
+    for bi, bx in enumerate(boxes if T else []):
+        us.append(Unit("proximity-mesh-box%d" % bi, u_proximity, params={"box": bx}, key="proximity", functions=[F + "proximity.closest_point", F + "proximity.nearby_faces", F + "triangles.closest_point"],
+                       bounds="two-triangle catalogue mesh (a large slab and a small triangle above it) x EVERY query point of the box %s..%s; kd-tree and r-tree replaced by their contracts" % (tuple(map(str, bx[0])), tuple(map(str, bx[1]))),
+                       subspace="catalogue mesh x symbolic point", max_paths=150, wall_s=900, ob_ms=30000, feas_ms=800, group=False))
     us.append(Unit("ray_bounds", u_ray_bounds, functions=[F + "ray.ray_triangle.ray_bounds"], bounds="EVERY ray (|o|<=100, some |d_i|>=0.1), EVERY tree box inside [-100,200]^3, EVERY ray parameter t in [1e-5,1000]", max_paths=400, wall_s=300, ob_ms=30000, feas_ms=800, group=False))
     return us
+
+
+# ------------------------------------------------------------------------------------------------ proximity over a mesh (kd-tree / r-tree by contract)
+PROX_MESH_V = [(-10, -10, 0), (10, -10, 0), (0, 10, 0), (0, 0, 2), (1, 0, 2), (0, 1, lib.Fr(5, 2))]
+PROX_MESH_F = [[0, 1, 2], [3, 4, 5]]
+
+
+class KDStub:
+    """contract of cKDTree.query: distance to (and index of) the nearest stored point"""
+
+    def __init__(self, pts, sym):
+        self.sym = sym
+        self.pts = np.asarray(nparr.base(pts) if sym else pts, dtype=object if sym else float)
+        self.data = nparr.set_sd(nparr.wrap(self.pts.copy()), np.float64) if sym else self.pts  # documented attribute: the indexed points
+        self.n, self.m = self.pts.shape
+
+    def query(self, points, k=1, **kw):
+        P = np.asarray(nparr.base(points) if self.sym else points, dtype=object if self.sym else float).reshape(-1, 3)
+        dist, idx = [], []
+        for p in P:
+            best, bi = None, 0
+            for i, v in enumerate(self.pts):
+                d2 = lib.dot3([p[c] - v[c] for c in range(3)], [p[c] - v[c] for c in range(3)])
+                if best is None or bool(d2 < best):
+                    best, bi = d2, i
+            dist.append(nparr.e_sqrt(best) if self.sym else float(np.sqrt(best)))
+            idx.append(bi)
+        d = np.array(dist, dtype=object if self.sym else float)
+        return (nparr.set_sd(nparr.wrap(d), np.float64) if self.sym else d), np.array(idx)
+
+
+def u_proximity(ctx):
+    """proximity.closest_point over a two-triangle mesh: no point of ANY triangle is closer than the reported one"""
+    import trimesh
+    from trimesh import proximity
+
+    V = np.array(PROX_MESH_V, dtype=object)
+    Vr = nparr.set_sd(nparr.wrap(V.copy()), np.float64) if ctx.sym else np.array([[float(x) for x in r] for r in V])
+    mesh = trimesh.Trimesh(vertices=Vr, faces=np.array(PROX_MESH_F), process=False)
+    lo, hi = ctx.params["box"]
+    p = [ctx.real("p%d" % i, lo[i], hi[i]) for i in range(3)]
+    pts = np.array([p], dtype=object if ctx.sym else float)
+    pts = nparr.set_sd(nparr.wrap(pts), np.float64) if ctx.sym else pts
+    tris = mesh.triangles
+    mesh._cache.cache["triangles_tree"] = TreeStub(nparr.set_sd(nparr.wrap(np.array(nparr.base(tris), dtype=object)), np.float64) if ctx.sym else np.asarray(tris), ctx.sym)
+    orig = proximity.cKDTree
+    proximity.cKDTree = (lambda data: KDStub(data, True)) if ctx.sym else orig
+    try:
+        close, dist, tid = proximity.closest_point(mesh, pts)
+    finally:
+        proximity.cKDTree = orig
+    r = list(np.asarray(nparr.base(close) if ctx.sym else close).reshape(-1))
+    dr = lib.dot3([r[i] - p[i] for i in range(3)], [r[i] - p[i] for i in range(3)])
+    u = ctx.real("u", 0, 1)
+    v = ctx.real("v", 0, 1)
+    for k, f in enumerate(PROX_MESH_F):
+        a, b, c = V[f[0]], V[f[1]], V[f[2]]
+        if ctx.sym:
+            q = [a[i] + u * (b[i] - a[i]) + v * (c[i] - a[i]) for i in range(3)]
+            dq = lib.dot3([q[i] - p[i] for i in range(3)], [q[i] - p[i] for i in range(3)])
+            # proximity.closest_point resolves candidates whose SQUARED distances differ by less than tol.merge = 1e-8 by a normal-direction rule:
+            # 'closest' is claimed up to that documented tie tolerance
+            ctx.true("no point of triangle %d is closer than the reported closest point" % k, l_or(u + v > 1, dq >= dr - 2e-8))
+        else:
+            ref = _closest_ref([float(x) for x in a], [float(x) for x in b], [float(x) for x in c], np.array(p, dtype=float))
+            dref = float((ref - np.array(p, dtype=float)).dot(ref - np.array(p, dtype=float)))
+            ctx.true("no point of triangle %d is closer than the reported closest point" % k, float(dr) <= dref + 2e-8 + 1e-9 * dref, "reported d2=%r, triangle %d has d2=%r" % (float(dr), k, dref))
+    if ctx.sym:
+        ctx.true("reported distance is the distance to the reported point", dist[0] * dist[0] == dr)
+    else:
+        ctx.true("reported distance is the distance to the reported point", abs(float(dist[0]) ** 2 - float(dr)) <= 1e-9 * (1 + float(dr)))
+
+
+def u_nearby_faces(ctx):
+    """pruning soundness of proximity.nearby_faces: a triangle left out of the candidates has no point as close as the nearest vertex,
+    hence cannot contain the closest point"""
+    import trimesh
+    from trimesh import proximity
+
+    V = np.array(PROX_MESH_V, dtype=object)
+    Vr = nparr.set_sd(nparr.wrap(V.copy()), np.float64) if ctx.sym else np.array([[float(x) for x in r] for r in V])
+    mesh = trimesh.Trimesh(vertices=Vr, faces=np.array(PROX_MESH_F), process=False)
+    lo, hi = ctx.params["box"]
+    p = [ctx.real("p%d" % i, lo[i], hi[i]) for i in range(3)]
+    pts = np.array([p], dtype=object if ctx.sym else float)
+    pts = nparr.set_sd(nparr.wrap(pts), np.float64) if ctx.sym else pts
+    tris = mesh.triangles
+    mesh._cache.cache["triangles_tree"] = TreeStub(nparr.set_sd(nparr.wrap(np.array(nparr.base(tris), dtype=object)), np.float64) if ctx.sym else np.asarray(tris), ctx.sym)
+    orig = proximity.cKDTree
+    proximity.cKDTree = (lambda data: KDStub(data, True)) if ctx.sym else orig
+    try:
+        cand = proximity.nearby_faces(mesh, pts)[0]
+    finally:
+        proximity.cKDTree = orig
+    cand = sorted(int(c) for c in cand)
+    ctx.concrete_equal("at least one candidate", len(cand) >= 1, True)
+    # squared distance to the nearest vertex, by definition
+    dv = None
+    for vtx in V:
+        d2 = lib.dot3([p[c] - vtx[c] for c in range(3)], [p[c] - vtx[c] for c in range(3)])
+        dv = d2 if dv is None else (nparr.e_min(dv, d2) if ctx.sym else min(dv, d2))
+    u = ctx.real("u", 0, 1)
+    v = ctx.real("v", 0, 1)
+    for k, f in enumerate(PROX_MESH_F):
+        if k in cand:
+            continue
+        a, b, c = V[f[0]], V[f[1]], V[f[2]]
+        if ctx.sym:
+            q = [a[i] + u * (b[i] - a[i]) + v * (c[i] - a[i]) for i in range(3)]
+            dq = lib.dot3([q[i] - p[i] for i in range(3)], [q[i] - p[i] for i in range(3)])
+            ctx.true("pruned triangle %d has no point closer than the nearest vertex [candidates %s]" % (k, cand), l_or(u + v > 1, dq >= dv))
+        else:
+            ref = _closest_ref([float(x) for x in a], [float(x) for x in b], [float(x) for x in c], np.array(p, dtype=float))
+            dref = float((ref - np.array(p, dtype=float)).dot(ref - np.array(p, dtype=float)))
+            ctx.true("pruned triangle %d has no point closer than the nearest vertex [candidates %s]" % (k, cand), dref >= float(dv) - 1e-9, "triangle %d at d2=%r, nearest vertex d2=%r" % (k, dref, float(dv)))
